@@ -56,7 +56,7 @@ fn configure(ch: &mut SecureChannel, role_client: bool, policy: &str) {
         let n1: Vec<u8> = (0..32u8).collect();
         let n2: Vec<u8> = (100..132u8).collect();
         ch.set_security_policy(SecurityPolicy::Basic256Sha256);
-        ch.set_security_mode(MessageSecurityMode::Sign);
+        ch.set_security_mode(if policy.ends_with("-Sign") { MessageSecurityMode::Sign } else { MessageSecurityMode::SignAndEncrypt });
         if role_client {
             ch.set_local_nonce(&n1);
             ch.set_remote_nonce(&n2);
@@ -85,6 +85,8 @@ struct World {
     writer: MessageWriter,
     peer_seq: u32,
     fn_channel: SecureChannel,
+    read_c2s: SecureChannel, // helper channels that only read the headers of emitted chunks
+    read_s2c: SecureChannel,
     fn_last: u32,
     fn_pend: Vec<MessageChunk>,
     fn_open: bool,
@@ -107,7 +109,16 @@ fn fin_name(f: MessageIsFinalType) -> &'static str {
     }
 }
 
-/// header of a chunk as it is on the wire (policy None and Sign leave the headers in the clear)
+/// header of a chunk as it is on the wire, read as its receiver reads it: security removed with a helper channel of
+/// the receiving role (a no-op for policy None), then `chunk_info`
+fn parse_secured(bytes: &[u8], helper: &mut SecureChannel) -> Value {
+    match helper.verify_and_remove_security(bytes) {
+        Ok(c) => parse_hdr(&c.data, helper),
+        Err(e) => json!({"req": 0, "seq": 0, "fin": "?", "chan": 0, "error": e.name()}),
+    }
+}
+
+/// header of a clear text chunk
 fn parse_hdr(bytes: &[u8], ch: &SecureChannel) -> Value {
     let c = MessageChunk { data: bytes.to_vec() };
     match c.chunk_info(ch) {
@@ -146,8 +157,12 @@ impl World {
             let mut sc = server_channel.write();
             configure(&mut sc, false, &policy);
         }
-        let mut fc = SecureChannel::new(st, Role::Server, DecodingOptions::default());
+        let mut fc = SecureChannel::new(st.clone(), Role::Server, DecodingOptions::default());
         configure(&mut fc, false, &policy);
+        let mut read_c2s = SecureChannel::new(st.clone(), Role::Server, DecodingOptions::default());
+        configure(&mut read_c2s, false, &policy);
+        let mut read_s2c = SecureChannel::new(st, Role::Client, DecodingOptions::default());
+        configure(&mut read_s2c, true, &policy);
         World {
             policy,
             responder: gets(cfg, "responder").to_string(),
@@ -159,6 +174,8 @@ impl World {
             writer: MessageWriter::new(65536, 0, 0),
             peer_seq: 0,
             fn_channel: fc,
+            read_c2s,
+            read_s2c,
             fn_last: 0,
             fn_pend: Vec::new(),
             fn_open: true,
@@ -218,12 +235,17 @@ impl World {
                 break;
             }
         }
-        let chunks: Vec<WireChunk> = frames(&sink.data).into_iter().map(|b| WireChunk { hdr: parse_hdr(&b, &ch), bytes: b }).collect();
+        drop(ch);
+        let last_sent = self.t.send_buffer().verif_last_sent_sequence_number();
+        let mut chunks: Vec<WireChunk> = Vec::new();
+        for b in frames(&sink.data) {
+            chunks.push(WireChunk { hdr: parse_secured(&b, &mut self.read_c2s), bytes: b });
+        }
         let emits: Vec<Value> = chunks.iter().map(|c| c.hdr.clone()).collect();
         self.cli_pend.insert(id, Vec::new());
         self.c2s.extend(chunks.iter().cloned());
         self.sent.push(("c2s".into(), chunks));
-        json!({"ok": true, "emits": emits, "bytes": sink.data.len(), "lastseq": sb.verif_last_sent_sequence_number()})
+        json!({"ok": true, "emits": emits, "bytes": sink.data.len(), "lastseq": last_sent})
     }
 
     fn server_send(&mut self, n: usize) -> Value {
@@ -256,7 +278,11 @@ impl World {
             }
             frames(&self.writer.bytes_to_write())
         };
-        let chunks: Vec<WireChunk> = datas.into_iter().map(|b| WireChunk { hdr: parse_hdr(&b, &sc), bytes: b }).collect();
+        drop(sc);
+        let mut chunks: Vec<WireChunk> = Vec::new();
+        for b in datas {
+            chunks.push(WireChunk { hdr: parse_secured(&b, &mut self.read_s2c), bytes: b });
+        }
         let emits: Vec<Value> = chunks.iter().map(|c| c.hdr.clone()).collect();
         self.s2c.extend(chunks.iter().cloned());
         self.sent.push(("s2c".into(), chunks));
